@@ -8,35 +8,43 @@ From J5V.lib Require Import Outcome.
 From J5V.model Require Import RulesDecl RulesWrite RulesRead.
 Import ListNotations.
 
-(* declared: description, effective prefix, options (name short or prefixed, description) *)
-Record enum_decl := ED { ed_desc : str; ed_prefix : str; ed_options : list (str * str) }.
-(* compiled: leading comment of the enum; values (name, number, leading comment) *)
-Record enum_out := EO { eo_desc : str; eo_values : list (str * Z * str) }.
-(* reflected (schema_j5pb.Enum): description, prefix, options (name, number, description) *)
-Record renum := RE { re_desc : str; re_prefix : str; re_options : list (str * Z * str) }.
+(* option info: the map<string, string> of an option, as (key, value) pairs sorted by key;
+   info fields of the enum: (name, label, description) *)
+Definition oinfo := list (str * str).
+Definition infofield := (str * str * str)%type.
+
+(* declared: description, effective prefix, options (name short or prefixed, description, info), info fields *)
+Record enum_decl := ED { ed_desc : str; ed_prefix : str; ed_options : list (str * str * oinfo); ed_info : list infofield }.
+(* compiled: leading comment of the enum; values (name, number, leading comment,
+   (j5.ext.v1.enum_value).info); (j5.ext.v1.enum).info_fields *)
+Record enum_out := EO { eo_desc : str; eo_values : list (str * Z * str * oinfo); eo_info : list infofield }.
+(* reflected (schema_j5pb.Enum): description, prefix, options (name, number, description, info), info fields *)
+Record renum := RE { re_desc : str; re_prefix : str; re_options : list (str * Z * str * oinfo); re_info : list infofield }.
 
 Definition has_suffix (suf s : str) : bool := has_prefix (rev suf) (rev s).
 
 Definition pfx (p n : str) : str := if has_prefix p n then n else (p ++ n)%list.
 
-Fixpoint number_from (p : str) (i : Z) (os : list (str * str)) : list (str * Z * str) :=
+Fixpoint number_from (p : str) (i : Z) (os : list (str * str * oinfo)) : list (str * Z * str * oinfo) :=
   match os with
   | [] => []
-  | (n, d) :: r => (pfx p n, i, d) :: number_from p (i + 1)%Z r
+  | (n, d, inf) :: r => (pfx p n, i, d, inf) :: number_from p (i + 1)%Z r
   end.
 
 (* visitEnumNode: <prefix>UNSPECIFIED = 0 is always there; an explicit first
-   option ending in UNSPECIFIED replaces it; the others count from 1 *)
+   option ending in UNSPECIFIED replaces it; the others count from 1; addValue
+   copies the option's info; the info fields go to (j5.ext.v1.enum) *)
 Definition write_enum (e : enum_decl) : enum_out :=
   let p := ed_prefix e in
   EO (ed_desc e)
      (match ed_options e with
-      | (n, d) :: r =>
+      | (n, d, inf) :: r =>
           if has_suffix unspecified n
-          then (pfx p n, 0%Z, d) :: number_from p 1%Z r
-          else ((p ++ unspecified)%list, 0%Z, []) :: number_from p 1%Z (ed_options e)
-      | [] => [((p ++ unspecified)%list, 0%Z, [])]
-      end).
+          then (pfx p n, 0%Z, d, inf) :: number_from p 1%Z r
+          else ((p ++ unspecified)%list, 0%Z, [], []) :: number_from p 1%Z (ed_options e)
+      | [] => [((p ++ unspecified)%list, 0%Z, [], [])]
+      end)
+     (ed_info e).
 
 (* strings.TrimSuffix *)
 Definition trim_suffix (suf s : str) : str :=
@@ -46,46 +54,49 @@ Definition trim_suffix (suf s : str) : str :=
 Definition read_enum (o : enum_out) : outcome renum :=
   match eo_values o with
   | [] => Panic "sourceValues.Get(0) on an enum without values"
-  | (first, _, _) :: _ =>
+  | (first, _, _, _) :: _ =>
       if negb (has_suffix unspecified first)
       then Err "enum does not have an unspecified value ending in UNSPECIFIED"
       else
         let tp := trim_suffix unspecified first in
         Ok (RE (clean_desc (eo_desc o)) tp
-               (map (fun v => match v with (n, i, d) => (trim_prefix tp n, i, clean_desc d) end) (eo_values o)))
+               (map (fun v => match v with (n, i, d, inf) => (trim_prefix tp n, i, clean_desc d, inf) end) (eo_values o))
+               (eo_info o))
   end.
 
 (* the enum schema a declaration denotes — from the declaration alone (README,
    "Enums"): value 0 is UNSPECIFIED; it may be written explicitly as the first
    option, named UNSPECIFIED (with or without the prefix), to give it a
    description; the other options are numbered 1, 2, ... in declaration order;
-   reflected option names are without the prefix. Descriptions as declared. *)
+   reflected option names are without the prefix. Descriptions, option info and
+   info fields as declared. *)
 Definition names_unspecified (p n : str) : bool :=
   str_eqb n unspecified || str_eqb n (p ++ unspecified)%list.
 
-Fixpoint number_options (p : str) (i : Z) (os : list (str * str)) : list (str * Z * str) :=
+Fixpoint number_options (p : str) (i : Z) (os : list (str * str * oinfo)) : list (str * Z * str * oinfo) :=
   match os with
   | [] => []
-  | (n, d) :: r => (trim_prefix p n, i, d) :: number_options p (i + 1)%Z r
+  | (n, d, inf) :: r => (trim_prefix p n, i, d, inf) :: number_options p (i + 1)%Z r
   end.
 
 Definition norm_enum (e : enum_decl) : renum :=
   let p := ed_prefix e in
   RE (ed_desc e) p
      (match ed_options e with
-      | (n, d) :: r =>
+      | (n, d, inf) :: r =>
           if names_unspecified p n
-          then (unspecified, 0%Z, d) :: number_options p 1%Z r
-          else (unspecified, 0%Z, []) :: number_options p 1%Z (ed_options e)
-      | [] => [(unspecified, 0%Z, [])]
-      end).
+          then (unspecified, 0%Z, d, inf) :: number_options p 1%Z r
+          else (unspecified, 0%Z, [], []) :: number_options p 1%Z (ed_options e)
+      | [] => [(unspecified, 0%Z, [], [])]
+      end)
+     (ed_info e).
 
 (* the fragment: every description survives commentDescription unchanged, and an
    explicit first option ending in UNSPECIFIED is spelled UNSPECIFIED or
    <prefix>UNSPECIFIED (and the prefix is not itself a prefix of "UNSPECIFIED") *)
 Definition unspec_ok (e : enum_decl) : bool :=
   match ed_options e with
-  | (n, _) :: _ =>
+  | (n, _, _) :: _ =>
       if has_suffix unspecified n
       then str_eqb n (ed_prefix e ++ unspecified)%list
            || (str_eqb n unspecified && negb (has_prefix (ed_prefix e) unspecified))
@@ -93,4 +104,4 @@ Definition unspec_ok (e : enum_decl) : bool :=
   | [] => true
   end.
 Definition enum_rt (e : enum_decl) : bool :=
-  unspec_ok e && desc_plain (ed_desc e) && forallb (fun o => desc_plain (snd o)) (ed_options e).
+  unspec_ok e && desc_plain (ed_desc e) && forallb (fun o => desc_plain (snd (fst o))) (ed_options e).
